@@ -11,7 +11,7 @@ def _is_expression(v):
 
 
 class Cones:
-    def __init__(self, prog, load_fp=None):
+    def __init__(self, prog, load_fp=None, entry=None):
         """load_fp(path) -> fingerprint of whatever the store's committed path serves (for loads of paths that
         are not produced earlier in the same evaluation)."""
         self.prog = prog
@@ -19,6 +19,9 @@ class Cones:
         self._sc = {}
         self._fp = {}
         self._site = None
+        self._reach = None
+        self._busy = set()
+        self.entry = entry
 
     # ---- where is a target kept (exactly one site by construction)
     def keep_site(self, target):
@@ -56,8 +59,17 @@ class Cones:
             m.add(("node", self.fp_keep(fn, i)))
         elif t == "load":
             prod = self.producers().get(it["path"])
-            m.add(("load", it["path"], self.fp_node(prod) if prod is not None and self._in_eval(prod) else
-                   self.load_fp(it["path"])))
+            if prod is not None and self._in_eval(prod):
+                if prod in self._busy:
+                    m.add(("load", it["path"], "self-loop"))   # a function loading the path its own caller produces
+                else:
+                    self._busy.add(prod)
+                    try:
+                        m.add(("load", it["path"], self.fp_node(prod)))
+                    finally:
+                        self._busy.discard(prod)
+            else:
+                m.add(("load", it["path"], self.load_fp(it["path"])))
         elif t == "ext":
             m.add(("ext", "extlib.ext_fn"))
         elif t == "extvar":
@@ -65,7 +77,13 @@ class Cones:
         return m
 
     def _in_eval(self, prod):
-        return True
+        if self.entry is None:
+            return True
+        if self._reach is None:
+            from . import gen
+
+            self._reach = gen.reachable(self.prog, self.entry)
+        return prod[1] in self._reach
 
     def sc(self, fn):
         """Static content of a function: a frozenset of members."""
